@@ -732,13 +732,15 @@ impl<'a> Kern<'a> {
 
 // ---- stream: end to end -----------------------------------------------------------------
 struct E2e {
+    /// some glyphs carry no code point (script "common"): kern lookups are split by script; no Coq term
+    mixed: bool,
     design: Design,
     /// per master: (Src, normalized coords, participates in kerning, is default)
     masters: Vec<(Src, Vec<f64>, bool, bool)>,
     nglyph: usize,
 }
 
-fn gen_design(rng: &mut Rng, family: &str, fixed: Option<(Vec<Src>, usize)>) -> E2e {
+fn gen_design(rng: &mut Rng, family: &str, fixed: Option<(Vec<Src>, usize)>, mixed: bool) -> E2e {
     let is_fixed = fixed.is_some();
     let two_axes = !is_fixed && rng.chance(1, 4);
     let mut axes = vec![AxisSrc { name: "Weight".into(), tag: "wght".into(), min: 0.0, default: 0.0, max: 1000.0, ..Default::default() }];
@@ -793,7 +795,10 @@ fn gen_design(rng: &mut Rng, family: &str, fixed: Option<(Vec<Src>, usize)>) -> 
     };
     let nglyph = nglyph.max(5).min(GLYPHS.len());
     let glyphs: Vec<GlyphSrc> = std::iter::once(GlyphSrc::new(".notdef", 500.0).rect(50.0, 0.0, 450.0, 700.0))
-        .chain((0..nglyph).map(|i| GlyphSrc::new(GLYPHS[i], 600.0).uni(0x41 + i as u32).rect(50.0, 0.0, 550.0, 700.0)))
+        .chain((0..nglyph).map(|i| {
+            let g = GlyphSrc::new(GLYPHS[i], 600.0).rect(50.0, 0.0, 550.0, 700.0);
+            if mixed && rng.chance(1, 3) { g } else { g.uni(0x41 + i as u32) }
+        }))
         .collect();
     let order: Vec<String> = glyphs.iter().map(|g| g.name.clone()).collect();
     let mut masters = Vec::new();
@@ -825,7 +830,7 @@ fn gen_design(rng: &mut Rng, family: &str, fixed: Option<(Vec<Src>, usize)>) -> 
         info.push((s, nloc, participates, mi == 0));
         masters.push(m);
     }
-    E2e { design: Design { family: family.into(), upem: 1000, axes, masters, ..Default::default() }, masters: info, nglyph }
+    E2e { mixed, design: Design { family: family.into(), upem: 1000, axes, masters, ..Default::default() }, masters: info, nglyph }
 }
 
 fn run_e2e_case(e: &E2e, kind: &str, id: &mut usize, stats: &mut BTreeMap<String, u64>) {
@@ -844,6 +849,10 @@ fn run_e2e_case(e: &E2e, kind: &str, id: &mut usize, stats: &mut BTreeMap<String
             return;
         }
     };
+    if std::env::args().any(|a| a == "--dump") && kind.starts_with("corpus") {
+        eprintln!("== {kind}");
+        dump_gpos(&bytes);
+    }
     let kern = match Kern::new(&bytes) {
         Ok(k) => k,
         Err(msg) => {
@@ -857,20 +866,25 @@ fn run_e2e_case(e: &E2e, kind: &str, id: &mut usize, stats: &mut BTreeMap<String
     let mut obs: Vec<(usize, usize, Vec<f64>)> = Vec::new();
     let mut inexact = 0u64;
     let mut evals = 0u64;
+    // a shaper falls back to DFLT when the run's script has no record, so only the scripts that are
+    // present are evaluated; with no script at all the font kerns nothing
+    let mut avail: Vec<(String, Vec<u16>)> = Vec::new();
     for script in [b"DFLT", b"latn"] {
-        let lookups = match kern.kern_lookups(script) {
-            Ok(Some(l)) => l,
-            Ok(None) => {
-                if any_kern {
-                    first_bad.entry("kern-feature-missing-for-script").or_insert(format!("no GPOS script {} although the source kerns", String::from_utf8_lossy(script)));
-                }
-                Vec::new()
-            }
+        match kern.kern_lookups(script) {
+            Ok(Some(l)) => avail.push((String::from_utf8_lossy(script).into_owned(), l)),
+            Ok(None) => {}
             Err(msg) => {
                 first_bad.entry("kern-font-unreadable").or_insert(msg);
-                continue;
             }
-        };
+        }
+    }
+    if avail.is_empty() {
+        if any_kern {
+            first_bad.entry("kern-feature-missing").or_insert("GPOS has neither a DFLT nor a latn script although the source kerns".into());
+        }
+        avail.push(("none".into(), Vec::new()));
+    }
+    for (sidx, (script, lookups)) in avail.iter().enumerate() {
         for a in 0..e.nglyph {
             for b in 0..e.nglyph {
                 let (Some(ga), Some(gb)) = (kern.gids.get(GLYPHS[a]), kern.gids.get(GLYPHS[b])) else {
@@ -881,7 +895,7 @@ fn run_e2e_case(e: &E2e, kind: &str, id: &mut usize, stats: &mut BTreeMap<String
                 for m in &ksrcs {
                     let want = ot_round(ufo_lookup(&m.0, a, b));
                     evals += 1;
-                    match kern.pair_adjust(&lookups, *ga, *gb, &m.1) {
+                    match kern.pair_adjust(lookups, *ga, *gb, &m.1) {
                         Err(msg) => {
                             first_bad.entry("kern-font-unreadable").or_insert(msg);
                             row.push(f64::NAN);
@@ -897,18 +911,18 @@ fn run_e2e_case(e: &E2e, kind: &str, id: &mut usize, stats: &mut BTreeMap<String
                                 let key = if ok(lenient) { "kern-class-pair-shadowed-by-earlier-subtable" } else { "kern-value-differs-from-source-at-master" };
                                 first_bad.entry(key).or_insert(format!(
                                     "script {}: glyphs ({}, {}) at master location {:?}: the font's kern feature moves by {} (skipping class-0 subtables: {}), that master's own kerning resolves to {} (rounded {})",
-                                    String::from_utf8_lossy(script), GLYPHS[a], GLYPHS[b], m.1, strict, lenient, ufo_lookup(&m.0, a, b), want
+                                    script, GLYPHS[a], GLYPHS[b], m.1, strict, lenient, ufo_lookup(&m.0, a, b), want
                                 ));
                             } else if !ok(lenient) {
                                 first_bad.entry("kern-value-differs-when-class0-subtables-skipped").or_insert(format!(
                                     "script {}: glyphs ({}, {}) at master location {:?}: a shaper that skips format 2 subtables whose second class is 0 moves by {}, source says {}",
-                                    String::from_utf8_lossy(script), GLYPHS[a], GLYPHS[b], m.1, lenient, want
+                                    script, GLYPHS[a], GLYPHS[b], m.1, lenient, want
                                 ));
                             }
                         }
                     }
                 }
-                if script == b"DFLT" {
+                if sidx == 0 {
                     obs.push((a, b, row));
                 }
             }
@@ -921,6 +935,10 @@ fn run_e2e_case(e: &E2e, kind: &str, id: &mut usize, stats: &mut BTreeMap<String
     *stats.entry("e2e_pair_master_evaluations".into()).or_default() += evals;
     *stats.entry("e2e_values_within_half_but_inexact".into()).or_default() += inexact;
     *stats.entry(format!("e2e_kerning_masters_{}", ksrcs.len())).or_default() += 1;
+    if e.mixed {
+        *stats.entry("e2e_mixed_script_fonts".into()).or_default() += 1;
+        return;
+    }
     if obs.iter().any(|(_, _, r)| r.iter().any(|v| v.is_nan())) {
         return;
     }
@@ -936,6 +954,36 @@ fn run_e2e_case(e: &E2e, kind: &str, id: &mut usize, stats: &mut BTreeMap<String
     );
     emit_case(*id, kind, coq, None, any_kern, format!("e:{:?}", e.masters), json!({"masters": e.masters.len(), "kerning_masters": ksrcs.len(), "glyphs": e.nglyph}));
     *id += 1;
+}
+
+/// debugging aid (--dump): the PairPos subtables of the kern lookups, to stderr
+fn dump_gpos(bytes: &[u8]) {
+    let Ok(k) = Kern::new(bytes) else { return };
+    let Ok(gpos) = k.font.gpos() else { return };
+    let Ok(ll) = gpos.lookup_list() else { return };
+    let names: BTreeMap<u16, String> = k.gids.iter().map(|(n, g)| (*g, n.clone())).collect();
+    let nm = |g: u16| names.get(&g).cloned().unwrap_or_else(|| format!("gid{g}"));
+    for (li, l) in ll.lookups().iter().enumerate() {
+        let Ok(l) = l else { continue };
+        let Ok(PositionSubtables::Pair(subs)) = l.subtables() else { continue };
+        for (si, st) in subs.iter().enumerate() {
+            match st {
+                Ok(PairPos::Format1(t)) => {
+                    let cov: Vec<String> = t.coverage().map(|c| c.iter().map(|g| nm(g.to_u16())).collect()).unwrap_or_default();
+                    eprintln!("lookup {li} subtable {si}: format 1, first glyphs {:?}", cov);
+                }
+                Ok(PairPos::Format2(t)) => {
+                    let cov: Vec<String> = t.coverage().map(|c| c.iter().map(|g| nm(g.to_u16())).collect()).unwrap_or_default();
+                    let (Ok(c1), Ok(c2)) = (t.class_def1(), t.class_def2()) else { continue };
+                    let cl = |cd: &write_fonts::read::tables::layout::ClassDef| -> Vec<(String, u16)> {
+                        names.iter().map(|(g, n)| (n.clone(), cd.get(GlyphId16::new(*g)))).filter(|(_, c)| *c != 0).collect()
+                    };
+                    eprintln!("lookup {li} subtable {si}: format 2, coverage {:?}, class1 {:?}, class2 {:?}, {}x{} records", cov, cl(&c1), cl(&c2), t.class1_count(), t.class2_count());
+                }
+                Err(e) => eprintln!("lookup {li} subtable {si}: {e}"),
+            }
+        }
+    }
 }
 
 /// fixed corpus: the fixtures of fontc's own tests and the minimal left-over-group source
@@ -982,14 +1030,15 @@ fn main() {
 
     // corpus first
     for (kind, srcs, nglyph) in corpus() {
-        let e = gen_design(&mut rng, "C09Corpus", Some((srcs, nglyph)));
+        let e = gen_design(&mut rng, "C09Corpus", Some((srcs, nglyph)), false);
         run_e2e_case(&e, kind, &mut id, &mut stats);
     }
     run_lookup(&mut rng, &mut id, n / 2);
     run_build(&mut rng, &mut id, n, &mut stats);
     for k in 0..n_e2e {
-        let e = gen_design(&mut rng, &format!("C09F{k}"), None);
-        run_e2e_case(&e, "e2e", &mut id, &mut stats);
+        let mixed = k % 6 == 5;
+        let e = gen_design(&mut rng, &format!("C09F{k}"), None, mixed);
+        run_e2e_case(&e, if mixed { "e2e-mixed" } else { "e2e" }, &mut id, &mut stats);
     }
     let extra = stats.get("e2e_pair_master_evaluations").copied().unwrap_or(0);
     let mut v = json!({"extra_evaluations": extra});
